@@ -3,7 +3,7 @@ import copy
 
 import dataflows as DF
 
-from .. import canon, stepcorr as S, stepprop as P
+from .. import pycorr, canon, stepcorr as S, stepprop as P
 from ..common import quiet
 
 LAYER_A = ['delete_fields', 'select_fields', 'rename_fields', 'add_field', 'filter_rows', 'deduplicate',
@@ -221,6 +221,7 @@ def run(ctx):
         rng3 = ctx.rng('two-step')
         for t in range(ctx.n(400, 4000)):
             two_step_case(ctx, rng3, tick=t)
+    pycorr.run(ctx)
     return ctx.finish(probe=probe, search=P.search_from_disagreements(ctx, oracle, LAYER_A))
 
 
